@@ -165,10 +165,11 @@ func GenIngressWorld(t *rapid.T, admin bool) *World {
 			b := genBackend(l+"def", g.Ns)
 			g.Default = &b
 		}
-		nr := rapid.IntRange(0, 2).Draw(t, l+"nr")
+		nr := rapid.IntRange(0, 3).Draw(t, l+"nr")
 		for r := 0; r < nr; r++ {
 			var paths []Backend
-			npth := rapid.IntRange(1, 3).Draw(t, fmt.Sprintf("%sr%dnp", l, r))
+			// no path = a rule that names a host only
+			npth := rapid.IntRange(0, 3).Draw(t, fmt.Sprintf("%sr%dnp", l, r))
 			for p := 0; p < npth; p++ {
 				paths = append(paths, genBackend(fmt.Sprintf("%sr%dp%d", l, r, p), g.Ns))
 			}
